@@ -104,7 +104,13 @@ class DatagramEndpoint:
 
     async def aclose(self) -> None:
         self.close_nowait()
-        await asyncio.shield(self.__protocol._get_close_waiter())
+        try:
+            await asyncio.shield(self.__protocol._get_close_waiter())
+        except asyncio.CancelledError:
+            # Close abruptly: do not wait any longer for the pending datagrams to be flushed.
+            if not self.__protocol._get_close_waiter().done():
+                self.__transport.abort()
+            raise
 
     def is_closing(self) -> bool:
         return self.__transport.is_closing()
